@@ -496,11 +496,11 @@ pub fn dml_menu(kind: Kind, thorough: bool) -> Vec<DOp> {
     let r = nested_pool();
     let mut m = vec![];
     let wheres = |m: &mut Vec<DOp>| {
-        let n = if thorough { pb.len() } else { 6 };
+        let n = if thorough { pb.len() } else { 7 };
         for x in pb.iter().take(n) {
             m.push(DOp::Where(CondS::One(x.clone())));
         }
-        m.push(DOp::Where(CondS::Any(vec![retag(&pb[0], 50), retag(&pb[4], 50)])));
+        m.push(DOp::Where(CondS::Any(vec![retag(&pb[0], 50), retag(&pb[5], 50)])));
         m.push(DOp::Where(CondS::Any(vec![])));
         m.push(DOp::Where(CondS::All(vec![])));
         m.push(DOp::Where(CondS::One(XS::InSub(bx(XS::Col("b")), bx(r[0].clone())))));
